@@ -94,6 +94,8 @@ class _Run:
         self.end: Dict[str, str] = {}          # receiver -> how it ended
         self.in_op: Dict[str, Optional[str]] = {}
         self.injected_cancel: set = set()
+        self._iters: Dict[str, Any] = {}
+        self.end_obs: List[Tuple[int, str, bool]] = []   # (seq, actor, a cancelled-but-not-yet-run receiver existed)
         self.scripted_end_seq: Optional[int] = None   # everything after this event is the harness draining
         self.sf_calls: List[Dict[str, Any]] = []  # one record per send_from call of a sender actor
         self.must_surface_cancel: set = set()     # receivers cancelled while truly blocked in the channel
@@ -119,7 +121,25 @@ class _Run:
             except Exception:  # noqa: BLE001
                 pass
         self.events.append((self.seq, actor, kind, op, detail))
+        if (kind == "raise" and detail in ("ChannelDone", "StopAsyncIteration")) or \
+                (kind == "ret" and op in ("receive", "anext", "iterate-end", "stream.end") and detail is None):
+            self.end_obs.append((self.seq, actor, self._cancel_pending()))
         return self.seq
+
+    def _cancel_pending(self) -> bool:
+        """Some receiver-side task has been cancelled (by anybody) or has timed out, and has not run since."""
+        for t in list(self.recv_tasks.values()):
+            try:
+                if t.done():
+                    continue
+                if getattr(t, "_must_cancel", False):
+                    return True
+                fw = getattr(t, "_fut_waiter", None)
+                if fw is not None and fw.cancelled():
+                    return True
+            except Exception:  # noqa: BLE001
+                pass
+        return False
 
     async def pause(self, label: str = "pause") -> None:
         k = self.tape.draw(4, label)
@@ -366,7 +386,7 @@ class _Run:
                 self.in_op[a] = op
                 self.ev(a, "inv", op)
                 try:
-                    coro = ch.receive() if op == "receive" else ch.__anext__()
+                    coro = ch.receive() if op == "receive" else self._iter_of(a).__anext__()
                     if mode >= 2:
                         t = (1 + self.tape.draw(4, "timeout")) * MS
                         x = await asyncio.wait_for(coro, t)
@@ -580,7 +600,7 @@ class _Run:
                 if use_iter:
                     self.ev(a, "inv", "anext")
                     try:
-                        x = await ch.__anext__()
+                        x = await self._iter_of(a).__anext__()
                     except StopAsyncIteration:
                         self.ev(a, "raise", "anext", "StopAsyncIteration")
                         self.end[a] = "end-of-iteration"
@@ -868,9 +888,11 @@ class _Run:
                 if (s < close_seq or it in self.sent_before_own_close) and it in recvd:
                     rs, who = recvd[it][0]
                     if rs > self.scripted_end_seq and s < self.scripted_end_seq:
-                        # with a cancelled / timed-out receiver in the history this is the known weakness of
-                        # done() (a waiter that has been cancelled but has not run yet still counts as about to take
-                        # an item): classed apart, so that the same symptom WITHOUT any such fault stays a violation
+                        # done() announces the end as soon as there are as many waiting receivers as queued items - a
+                        # prediction that fails when such a waiter is cancelled or times out (before or after the
+                        # announcement) instead of taking its item.  That is the listed finding F14; it needs a cancelled
+                        # or timed-out receiver-side task somewhere in the history (harness-injected or the library
+                        # cancelling its own consumer), so WITHOUT one the symptom stays a violation.
                         sig = "left-behind-after-cancel-or-timeout" if self._had_fault() else "left-behind"
                         raise Violation("C12.R6" if self._had_fault() else "C12.R2", sig,
                                         f"send of {it} completed at #{s}, before the close; receiver(s) {saw_end} kept receiving "
@@ -880,9 +902,16 @@ class _Run:
         # of their *return events* is not what the statement fixes (an implementation that hands items
         # to waiting receivers directly lets a later receiver return first), so the global order is
         # only judged when a single receiver took everything.
+        # The order clause belongs to the first sentence (senders, a closer, receivers that keep receiving); for a
+        # cancelled / timed-out receiver the statement promises "surfaces, usable, nothing lost" - a channel that
+        # hands items to waiting receivers cannot recall what another receiver took while a cancelled hand-off
+        # was being returned.  So order is judged in histories without such a fault.
         by_recv: Dict[str, List[Tuple[int, Any]]] = collections.defaultdict(list)
         for it, lst in recvd.items():
             by_recv[lst[0][1]].append((lst[0][0], it))
+        if self._had_fault():
+            by_recv = collections.defaultdict(list)
+            self.stats["recorded:order-not-judged-in-a-history-with-cancel-or-timeout"] += 1
         views = dict(by_recv)
         if len(by_recv) == 1:
             views["(all)"] = [x for v in by_recv.values() for x in v]
@@ -895,8 +924,27 @@ class _Run:
                                     f"{snd}: item {k} received after item {last[snd]} (receiver {who})")
                 last[snd] = k
 
+    def _iter_of(self, a: str):
+        """One iterator per receiver, obtained once - as `it = aiter(channel)` / `await anext(it)` does (the channel
+        may be its own iterator or hand out a separate object)."""
+        it = self._iters.get(a)
+        if it is None:
+            it = self._iters[a] = self.ch.__aiter__()
+        return it
+
     def _had_fault(self) -> bool:
-        return any(k == "fault" or (k == "raise" and d == "TimeoutError") for (_, _, k, _, d) in self.events)
+        """A blocked receiver was cancelled or timed out somewhere in the history - by the harness (fault events,
+        TimeoutError) or by the code under test itself (the library cancels its own _send_messages task): derived
+        from the state of the receiver-side tasks, not only from the harness's own markers."""
+        if any(k == "fault" or (k == "raise" and d in ("TimeoutError", "CancelledError")) for (_, _, k, _, d) in self.events):
+            return True
+        for t in self.recv_tasks.values():
+            try:
+                if t.done() and t.cancelled():
+                    return True
+            except Exception:  # noqa: BLE001
+                pass
+        return any(e in ("cancelled", "timeout") for e in self.end.values())
 
     def _in_send_from_started_before_close(self, it, s) -> bool:
         # an item put by a send_from call that was itself invoked before close returned
@@ -935,7 +983,8 @@ class ChanSim(Simulator):
     }
     expected_probes = ["probe:cancel-landed-between-wakeup-and-resumption",
                        "probe:close-with-receiver-inside-get", "probe:receive-on-done-channel",
-                       "fault:cancel-blocked-receiver", "fault:timeout-of-blocked-receiver"]
+                       "fault:cancel-blocked-receiver", "fault:timeout-of-blocked-receiver",
+                       "probe:sender-mixes-send-and-send_from", "probe:sender-closes-right-after-its-last-send"]
 
     def execute(self, tape, trace, stats):
         return _Run(tape, trace, stats).go()
